@@ -48,7 +48,9 @@ class NormalDataset:
 
         # Similarly, we rewrite P(X < 0) = 1 - fpr as
         #     P((X - mu) / si < -mu / si) = 1 - fpr
-        mu_neg = -scipy.stats.norm.ppf(1 - fpr) * sigma_neg
+        # isf is the inverse survival function, isf(fpr) = ppf(1 - fpr), but accurate
+        # for small fpr, where 1 - fpr loses (all) digits.
+        mu_neg = -scipy.stats.norm.isf(fpr) * sigma_neg
         nb_neg = int(fpr_support / fpr)
 
         n = nb_pos + nb_neg
